@@ -60,8 +60,9 @@ def main():
         name = os.path.basename(d)
         dst = os.path.join(ROOT, "seeded", name)
         os.makedirs(dst, exist_ok=True)
-        shutil.copy(os.path.join(d, "patch.diff"), dst)
-        shutil.copy(os.path.join(d, "demo.py"), dst)
+        if os.path.abspath(dst) != os.path.abspath(d):
+            shutil.copy(os.path.join(d, "patch.diff"), dst)
+            shutil.copy(os.path.join(d, "demo.py"), dst)
         meta["breaks_property"] = meta["property"]
         meta["confirmed"] = {
             "how": "git -C /repo apply patch.diff; pytest (baseline 362 passed / 2 pydantic failures); "
